@@ -10,6 +10,15 @@ Space   TEMPLATES (written out below) x case re-spellings of their foldable toke
         after every execution the raw-DuckDB digest, the session context, the postlude outcome and the probe table
         must equal those of the untouched instance, otherwise the instance is thrown away (DESIGN 2.2 (i)).
 
+        Session flavours (SESSIONS): besides the connection with current database db1 and schema s1, the
+        context-sensitive statement kinds (CTEs, aliases, MERGE, DESCRIBE, SHOW, DML/DDL on fully qualified names)
+        also run on a second connection with NO current database (connect() without arguments) and with a current
+        database but NO current schema (after USE DATABASE); and a family of templates works on objects whose quoted
+        names are NOT upper case ("lower_s", "MixedDb", "mt", "cc", "vV", ...: created, USEd, described, shown,
+        commented, altered, dropped), from db1.s1 (q), from inside the quoted lower-case schema (qs) and from inside
+        the quoted mixed-case database (qd). Every occurrence of an identifier is a token of its own, so definition
+        and reference of a CTE / alias / MERGE source are re-spelled independently.
+
         quick    per template: all-lower, ALL-UPPER, Capitalised, aLtErNaTiNg, every single token in UPPER;
                  every single marked name written as "UPPER", and all of them.
         thorough additionally every single token Capitalised / aLtErNaTiNg, all 2^t lower/UPPER assignments for
@@ -28,10 +37,11 @@ Clauses
                         thorough variants whose other tokens are in upper case, the ALL-UPPER spelling).
   C02.report.<surface>  absolute: on each surface the names are the ones the identifier rules predict
                         (mc/ref/sf_ident.py: unquoted -> upper case, quoted -> verbatim). Surfaces: description,
-                        dictkeys, status (of the template's own result, where the template states an expectation),
-                        conn (conn.database / conn.schema), is.tables, is.columns, is.views, is.databases, describe,
+                        dictkeys, status, result (names a DESCRIBE / SHOW template must list in its own result) —
+                        of the template's own result, where the template states an expectation — and conn
+                        (conn.database / conn.schema), all five judged after every execution; is.tables, is.columns, is.views, is.databases, describe,
                         select (description + DictCursor keys of SELECT * per object), show.schemas, show.objects,
-                        show.tables, show.pk — swept after prelude + template + postlude in whole-statement
+                        show.tables, show.pk — swept after session prelude + template + postlude in whole-statement
                         spellings (see sweep_labels).
 
 Not demanded
@@ -39,8 +49,10 @@ Not demanded
   * error message text (it echoes user text); only class, errno, sqlstate are compared;
   * the names of result columns that are expressions without alias (Snowflake derives them from the expression text);
   * row order of statements without ORDER BY (compared as multisets);
-  * that an expected name is present on a surface at all (completeness of metadata is C09's subject): an absent name
-    is counted in evidence (`sweep_names_absent`), a name in the wrong case is the violation;
+  * in the sweep: that an expected name is present on a surface at all (completeness of metadata is C09's subject):
+    an absent name is counted in evidence (`sweep_names_absent`), a name in the wrong case is the violation. Only a
+    DESCRIBE / SHOW template that itself names an object the prelude created must list it (`kind=missing`): resolving
+    the name it was given is what the statement is for;
   * names of fakesnow's internal helper objects (`_fs_*`, `_fs_global`, DuckDB's `main`, `memory`, `system`, `temp`):
     the user never wrote them. DuckDB's lower-case `information_schema` and the views in it are demanded, because the
     user does write INFORMATION_SCHEMA.TABLES unquoted;
@@ -49,7 +61,8 @@ Not demanded
 
 Classes   C02.respell / C02.quoted: `stmt=<kind>,tok=<token>,form=<upper|capitalised|alternating>` — the first token
           (left to right) whose single flip already changes the outcome and which is flipped in the failing spelling;
-          `tok=<combination>` when no single flip explains it. C02.report: `kind=<case|lower>,name=<...>[,stmt=<kind>]`.
+          `tok=<combination>` when no single flip explains it. C02.report: `kind=<case|lower|missing>,name=<...>[,stmt=<kind>]
+          [,attr=<database|schema>][,session=<flavour>]`.
 """
 from __future__ import annotations
 
@@ -101,13 +114,51 @@ class T:
 
     cols    spelled result column names the statement itself fixes (aliases / plain columns), or None
     status  (format, spelled name) of the status row Snowflake documents for the statement, or None
+    has     (result column, [spelled names]): names the statement's own result must list in that column
+            (DESCRIBE: column names; SHOW: object names), or None
     fx      effects on the names model (mc.ref.sf_ident.Catalog.apply)
     ctx     False: the current database/schema after the statement is not fixed by this property
+    session the session flavour the statement runs in (SESSIONS)
     """
 
-    def __init__(self, tid, kind, sql, cols=None, ordered=False, status=None, fx=(), ctx=True):
+    def __init__(self, tid, kind, sql, cols=None, ordered=False, status=None, fx=(), ctx=True, has=None,
+                 session="full"):
         self.id, self.kind, self.sql, self.cols, self.ordered = tid, kind, sql, cols, ordered
-        self.status, self.fx, self.ctx = status, list(fx), ctx
+        self.status, self.fx, self.ctx, self.has, self.session = status, list(fx), ctx, has, session
+
+
+# ---- session flavours -------------------------------------------------------------------------------------------------
+# Every flavour starts with PRELUDE on a connection with database db1 and schema s1. Then:
+#   full      the statement runs on that connection;
+#   nodb      the statement runs on a second connection of the same instance made by connect() without arguments:
+#             no current database, no current schema;
+#   noschema  the same second connection after USE DATABASE db1: a current database, but no current schema;
+#   q         PRELUDE_Q (objects whose quoted names are NOT upper case) is added, context still db1.s1;
+#   qs        q, then USE SCHEMA "lower_s": the current schema has a quoted lower-case name;
+#   qd        q, then USE SCHEMA "MixedDb"."sX": current database and schema have quoted mixed-case names.
+# (statement, effects on the names model)
+PRELUDE_Q = [
+    ('create schema "lower_s"', [("schema", '"lower_s"')]),
+    ('create table "lower_s".t5 (id int, "mIx" varchar(7))', [("table", '"lower_s".t5', ["id", '"mIx"'])]),
+    ("insert into \"lower_s\".t5 values (1, 'a')", []),
+    ('create table "lower_s"."mt" ("cc" int, "Dd" varchar(4))', [("table", '"lower_s"."mt"', ['"cc"', '"Dd"'])]),
+    ("insert into \"lower_s\".\"mt\" values (1, 'dD')", []),
+    ('create view "lower_s"."vV" as select "cc" from "lower_s"."mt"', [("view", '"lower_s"."vV"', ['"cc"'])]),
+    ('create database "MixedDb"', [("database", '"MixedDb"')]),
+    ('create schema "MixedDb"."sX"', [("schema", '"MixedDb"."sX"')]),
+    ('create table "MixedDb"."sX"."tQ" ("a" int, b int)', [("table", '"MixedDb"."sX"."tQ"', ['"a"', "b"])]),
+    ('insert into "MixedDb"."sX"."tQ" values (1, 2)', []),
+    ("use schema db1.s1", [("use_schema", "db1.s1")]),
+]
+SESSIONS = {
+    # flavour: (second connection?, [(statement, effects)] after PRELUDE, on the connection the template uses)
+    "full": (False, []),
+    "nodb": (True, [("set pv = 7", [("session", None, None)])]),
+    "noschema": (True, [("set pv = 7", [("session", None, None)]), ("use database db1", [("use_database", "db1")])]),
+    "q": (False, PRELUDE_Q),
+    "qs": (False, PRELUDE_Q + [('use schema "lower_s"', [("use_schema", '"lower_s"')])]),
+    "qd": (False, PRELUDE_Q + [('use schema "MixedDb"."sX"', [("use_schema", '"MixedDb"."sX"')])]),
+}
 
 
 CREATED = "{kind} {name} successfully created."
@@ -292,6 +343,131 @@ TEMPLATES = [
     T("fn_sample", "FUNCTION", "select count(*) as ~n from ~t sample (50) seed (1)", ["n"]),
     T("fn_tablesample", "FUNCTION", "select ~k from ~t tablesample bernoulli (100) order by ~k", ["k"], True),
     T("fn_random", "FUNCTION", "select random(3) as ~r", ["r"]),
+    # ---- the same kinds of statement in sessions WITHOUT a current database / schema: names are fully qualified so
+    #      that the statements can succeed; CTE names, aliases and MERGE sources are defined and referenced in
+    #      different places, and every occurrence is re-spelled on its own ----
+    *[
+        T(f"{tid}@{sess}", kind, sql, cols, ordered, status=status, fx=fx, ctx=ctx, has=has, session=sess)
+        for sess in ("nodb", "noschema")
+        for tid, kind, sql, cols, ordered, status, fx, ctx, has in [
+            ("cte_const", "SELECT", "with ~totals as (select 1 as ~a, 'x' as ~b) select ~a, ~b from ~totals",
+             ["a", "b"], False, None, (), True, None),
+            ("cte_alias", "SELECT",
+             "with ~totals as (select 1 as ~a) select ~x.~a from ~totals ~x", ["a"], False, None, (), True, None),
+            ("cte_fq", "SELECT",
+             "with ~src as (select ~k, ~v from ~db1.~s1.~t) select ~src.~k from ~src order by 1",
+             ["k"], True, None, (), True, None),
+            ("cte_two", "SELECT",
+             "with ~c1 as (select ~k from ~db1.~s1.~t), ~c2 as (select ~k from ~c1) "
+             "select ~z.~k from ~c2 as ~z order by 1", ["k"], True, None, (), True, None),
+            ("join_fq", "SELECT",
+             "select ~a.~k, ~b.~v from ~db1.~s1.~t ~a join ~db1.~s1.~s as ~b on ~a.~k = ~b.~k order by 1",
+             ["k", "v"], True, None, (), True, None),
+            ("subq_fq", "SELECT",
+             "select ~q.~k from (select ~k from ~db1.~s1.~t) as ~q where ~q.~k in (select ~k from ~db1.~s1.~s) order by 1",
+             ["k"], True, None, (), True, None),
+            ("unqualified", "ERROR", "select ~k from ~t", None, False, None, (), True, None),
+            ("schema_qualified", "SELECT", "select ~k from ~s1.~t order by ~k", None, True, None, (), True, None),
+            ("var", "SELECT", "select $pv as ~x", ["x"], False, None, (), True, None),
+            ("is_fq", "IS_QUERY",
+             "select ~table_name from ~db1.~information_schema.~tables where ~table_schema = 'S2'",
+             ["table_name"], False, None, (), True, None),
+            ("describe_fq", "DESCRIBE", "describe table ~db1.~s1.~t", None, False, None, (), True, ("name", ["k", "v"])),
+            ("show_tables_fq", "SHOW", "show tables in schema ~db1.~s2", None, False, None, (), True, ("name", ["u"])),
+            ("show_schemas_fq", "SHOW", "show schemas in database ~db1", None, False, None, (), True,
+             ("name", ["s1", "s2"])),
+            ("show_tables", "SHOW", "show terse tables", None, False, None, (), True, None),
+            ("ins_fq", "INSERT", "insert into ~db1.~s1.~t (~k, ~v) values (3, 'cC')", None, False, None, (), True, None),
+            ("upd_fq", "UPDATE", "update ~db1.~s1.~t set ~v = 'Zz' where ~k = 1", None, False, None, (), True, None),
+            ("del_fq", "DELETE", "delete from ~db1.~s1.~t where ~k = 2", None, False, None, (), True, None),
+            ("merge_fq", "MERGE",
+             "merge into ~db1.~s1.~t as ~tt using ~db1.~s1.~s as ~ss on ~tt.~k = ~ss.~k "
+             "when matched then update set ~v = ~ss.~v when not matched then insert (~k, ~v) values (~ss.~k, ~ss.~v)",
+             None, False, None, (), True, None),
+            ("merge_cte_src", "MERGE",
+             "merge into ~db1.~s1.~t using (select ~k, ~v from ~db1.~s1.~s) ~src on ~t.~k = ~src.~k "
+             "when matched then delete", None, False, None, (), True, None),
+            ("create_table_fq", "CREATE TABLE", "create table ~db1.~s2.~n1 (~a int, \"bB\" varchar(3))",
+             None, False, (CREATED, "Table", "n1"), [("table", "db1.s2.n1", ["a", '"bB"'])], True, None),
+            ("create_view_fq", "CREATE VIEW", "create view ~db1.~s1.~v3 as select ~k as ~kk from ~db1.~s1.~t",
+             None, False, (CREATED, "View", "v3"), [("view", "db1.s1.v3", ["kk"])], True, None),
+            ("drop_table_fq", "DROP", "drop table ~db1.~s1.~s", None, False, (DROPPED, None, "s"),
+             [("drop", "db1.s1.s")], True, None),
+            ("create_schema_fq", "CREATE SCHEMA", "create schema ~db1.~s6", None, False, (CREATED, "Schema", "s6"),
+             [("schema", "db1.s6")], True, None),
+            ("use_schema_fq", "USE", "use schema ~db1.~s2", None, False, None, [("use_schema", "db1.s2")], True, None),
+            ("use_schema_rel", "USE", "use schema ~s2", None, False, None, (), False, None),
+            ("use_database", "USE", "use database ~db2", None, False, None, [("use_database", "db2")], True, None),
+        ]
+    ],
+    # ---- quoted names that are NOT upper case ("kept verbatim" says something only for these): created, used,
+    #      described, shown, commented, altered, dropped; session flavours q / qs / qd ----
+    T("q_use_schema", "USE", 'use schema "lower_s"', fx=[("use_schema", '"lower_s"')], session="q"),
+    T("q_use_schema_fq", "USE", 'use schema ~db1."lower_s"', fx=[("use_schema", 'db1."lower_s"')], session="q"),
+    T("q_use_database", "USE", 'use database "MixedDb"', fx=[("use_database", '"MixedDb"')], session="q"),
+    T("q_use_schema_db", "USE", 'use schema "MixedDb"."sX"', fx=[("use_schema", '"MixedDb"."sX"')], session="q"),
+    T("q_create_schema", "CREATE SCHEMA", 'create schema "Low2"', status=(CREATED, "Schema", '"Low2"'),
+      fx=[("schema", '"Low2"')], session="q"),
+    T("q_create_database", "CREATE DATABASE", 'create database "Db_q"', status=(CREATED, "Database", '"Db_q"'),
+      fx=[("database", '"Db_q"')], ctx=False, session="q"),
+    T("q_create_table", "CREATE TABLE", 'create table "lower_s"."nT" ("x" int, ~y varchar(3), "Zz" date)',
+      status=(CREATED, "Table", '"nT"'), fx=[("table", '"lower_s"."nT"', ['"x"', "y", '"Zz"'])], session="q"),
+    T("q_create_view", "CREATE VIEW", 'create view "lower_s"."v2" as select "Dd" as "dD", "cc" as ~e from "lower_s"."mt"',
+      status=(CREATED, "View", '"v2"'), fx=[("view", '"lower_s"."v2"', ['"dD"', "e"])], session="q"),
+    T("q_ctas", "CREATE TABLE", 'create table "MixedDb"."sX"."cT" as select "cc", "Dd" as "d2" from ~db1."lower_s"."mt"',
+      status=(CREATED, "Table", '"cT"'), fx=[("table", '"MixedDb"."sX"."cT"', ['"cc"', '"d2"'])], session="q"),
+    T("q_alter_add", "ALTER", 'alter table "lower_s"."mt" add column "eE" int',
+      fx=[("addcol", '"lower_s"."mt"', '"eE"')], session="q"),
+    T("q_alter_rename_col", "ALTER", 'alter table "lower_s"."mt" rename column "cc" to "Cc2"',
+      fx=[("renamecol", '"lower_s"."mt"', '"cc"', '"Cc2"')], session="q"),
+    T("q_alter_rename", "ALTER", 'alter table "lower_s"."mt" rename to "lower_s"."Mt2"',
+      fx=[("rename", '"lower_s"."mt"', '"lower_s"."Mt2"')], session="q"),
+    T("q_comment", "COMMENT", "comment on table \"lower_s\".\"mt\" is 'cM'", session="q"),
+    T("q_drop_view", "DROP", 'drop view "lower_s"."vV"', status=(DROPPED, None, '"vV"'),
+      fx=[("drop", '"lower_s"."vV"')], session="q"),
+    T("q_drop_table", "DROP", 'drop table "MixedDb"."sX"."tQ"', status=(DROPPED, None, '"tQ"'),
+      fx=[("drop", '"MixedDb"."sX"."tQ"')], session="q"),
+    T("q_drop_schema", "DROP", 'drop schema "lower_s"', status=(DROPPED, None, '"lower_s"'),
+      fx=[("dropschema", '"lower_s"')], session="q"),
+    T("q_insert", "INSERT", 'insert into "lower_s"."mt" ("cc", "Dd") values (2, \'eE\')', session="q"),
+    T("q_select", "SELECT", 'select "cc", "Dd", ~m."cc" as ~c3 from "lower_s"."mt" as ~m', ['"cc"', '"Dd"', "c3"], session="q"),
+    T("q_select_view", "SELECT", 'select * from ~db1."lower_s"."vV"', ['"cc"'], session="q"),
+    T("q_describe", "DESCRIBE", 'describe table "lower_s"."mt"', has=("name", ['"cc"', '"Dd"']), session="q"),
+    T("q_describe_view", "DESCRIBE", 'describe view ~db1."lower_s"."vV"', has=("name", ['"cc"']), session="q"),
+    T("q_describe_db", "DESCRIBE", 'describe table "MixedDb"."sX"."tQ"', has=("name", ['"a"', "b"]), session="q"),
+    T("q_show_tables", "SHOW", 'show tables in schema "lower_s"', has=("name", ['"mt"', "t5"]), session="q"),
+    T("q_show_objects", "SHOW", 'show terse objects in schema ~db1."lower_s"', has=("name", ['"mt"', "t5", '"vV"']),
+      session="q"),
+    T("q_show_schemas", "SHOW", 'show schemas in database "MixedDb"', has=("name", ['"sX"']), session="q"),
+    T("q_show_tables_db", "SHOW", 'show tables in database "MixedDb"', has=("name", ['"tQ"']), session="q"),
+    # inside a schema with a quoted lower-case name: unqualified names resolve against it
+    T("qs_describe", "DESCRIBE", "describe table ~t5", has=("name", ["id", '"mIx"']), session="qs"),
+    T("qs_describe_q", "DESCRIBE", 'describe table "mt"', has=("name", ['"cc"', '"Dd"']), session="qs"),
+    T("qs_select", "SELECT", 'select ~id, "mIx" from ~t5', ["id", '"mIx"'], session="qs"),
+    T("qs_show_tables", "SHOW", "show tables in schema", has=("name", ['"mt"', "t5"]), session="qs"),
+    T("qs_create_table", "CREATE TABLE", "create table ~t6 (~a varchar(3)) comment = 'cC'",
+      status=(CREATED, "Table", "t6"), fx=[("table", "t6", ["a"])], session="qs"),
+    T("qs_create_view", "CREATE VIEW", 'create view ~v5 as select ~id as "iD" from ~t5',
+      status=(CREATED, "View", "v5"), fx=[("view", "v5", ['"iD"'])], session="qs"),
+    T("qs_alter_add", "ALTER", "alter table ~t5 add column ~c2 varchar(2)", fx=[("addcol", "t5", "c2")], session="qs"),
+    T("qs_comment", "COMMENT", "comment on table ~t5 is 'cM'", session="qs"),
+    T("qs_insert", "INSERT", "insert into ~t5 values (2, 'b')", session="qs"),
+    T("qs_drop_table", "DROP", "drop table ~t5", status=(DROPPED, None, "t5"), fx=[("drop", "t5")], session="qs"),
+    T("qs_drop_current", "DROP", 'drop schema "lower_s"', status=(DROPPED, None, '"lower_s"'),
+      fx=[("dropschema", '"lower_s"')], session="qs"),
+    T("qs_use_back", "USE", "use schema ~s1", fx=[("use_schema", "s1")], session="qs"),
+    # inside a database and schema with quoted mixed-case names
+    T("qd_describe", "DESCRIBE", 'describe table "tQ"', has=("name", ['"a"', "b"]), session="qd"),
+    T("qd_select", "SELECT", 'select "a", ~b from "tQ"', ['"a"', "b"], session="qd"),
+    T("qd_show_schemas", "SHOW", "show schemas", has=("name", ['"sX"']), session="qd"),
+    T("qd_show_tables_db", "SHOW", "show tables in database", has=("name", ['"tQ"']), session="qd"),
+    T("qd_show_objects_schema", "SHOW", "show objects in schema", has=("name", ['"tQ"']), session="qd"),
+    T("qd_create_table", "CREATE TABLE", "create table ~t7 (~id int)", status=(CREATED, "Table", "t7"),
+      fx=[("table", "t7", ["id"])], session="qd"),
+    T("qd_create_schema", "CREATE SCHEMA", "create schema ~sy", status=(CREATED, "Schema", "sy"),
+      fx=[("schema", "sy")], session="qd"),
+    T("qd_use_schema", "USE", "use schema ~information_schema", ctx=False, session="qd"),
+    T("qd_drop_table", "DROP", 'drop table "tQ"', status=(DROPPED, None, '"tQ"'), fx=[("drop", '"tQ"')], session="qd"),
     # ---- connect(database=, schema=): the two arguments behave like unquoted identifiers (no statement: the pair is
     #      re-spelled, then CONNECT_PROBE is executed) ----
     T("connect_args", "CONNECT", "db1 s1", ["k"], True),
@@ -357,10 +533,11 @@ def _state(fs):
     return tuple(sorted(observe.catalog(fs, views=True, data=True).items()))
 
 
-def model_after(tpl: T | None, succeeded: bool = True):
-    """names model after the prelude and (if it succeeded) the template's statement"""
+def model_after(tpl: T | None, succeeded: bool = True, session: str | None = None):
+    """names model after the prelude, the session flavour's own steps and (if it succeeded) the template's statement"""
     cat = R.Catalog(DB, SCHEMA)
-    for _sql, fx in PRELUDE:
+    steps = PRELUDE + SESSIONS[session or (tpl.session if tpl is not None else "full")][1]
+    for _sql, fx in steps:
         for f in fx:
             cat.apply(f)
     if tpl is not None and succeeded:
@@ -379,7 +556,7 @@ PK_CLEAN = 'delete from "DB1"."S1"."PK" where "ID" = 99'
 class Session:
     """A fresh in-memory instance with one connection, after the PRELUDE."""
 
-    def __init__(self, probe_base: bool, database: str = DB, schema: str = SCHEMA):
+    def __init__(self, probe_base: bool, database: str = DB, schema: str = SCHEMA, flavour: str = "full"):
         import fakesnow.instance as inst
         from snowflake.connector.cursor import DictCursor
 
@@ -387,6 +564,12 @@ class Session:
         self.conn = self.fs.connect(database=database, schema=schema)
         cur = self.conn.cursor(DictCursor)
         for p, _fx in PRELUDE:
+            cur.execute(p)
+        second, steps = SESSIONS[flavour]
+        if second:
+            self.conn = self.fs.connect()  # no arguments: no current database, no current schema
+            cur = self.conn.cursor(DictCursor)
+        for p, _fx in steps:
             cur.execute(p)
         self.base = None
         if probe_base:
@@ -470,7 +653,7 @@ def execute(tid: str, sql: str, sweep: bool = False, sess: Session | None = None
             o.update(status=("err",) + ei[1:4], msg=ei[4])
             return o, None, None
     if sess is None:
-        sess = Session(probe_base=shared)
+        sess = Session(probe_base=shared, flavour=tpl.session)
     keep = False
     try:
         o, findings = sess.run(tpl, sql, sweep)
@@ -517,6 +700,34 @@ def own_result_findings(tpl: T, o):
             if ok or kind == "case":
                 out.append((surface, f"kind=case,stmt={tpl.kind}", not ok, {"expected": exp, "reported": got}))
             # kind == other: a different set of columns is not a case matter -> not demanded here
+    if tpl.has is not None:
+        # the statement's own listing must show these names exactly as the identifier rules say
+        col, spelled_names = tpl.has
+        keys = o["names"][0] or o["names"][1]  # no row -> no DictCursor keys: the description names the columns
+        if isinstance(o["rows"], tuple) and col in keys:
+            i = keys.index(col)
+            listed = [ast.literal_eval(r[i]) for r in o["rows"]]
+            for sp in spelled_names:
+                e = R.fold(sp)
+                q = "quoted" if R.is_quoted(sp) else "unquoted"
+                if e in listed:
+                    out.append(("result", f"kind=case,name={q},stmt={tpl.kind},session={tpl.session}", False, None))
+                elif any(isinstance(x, str) and x.upper() == e.upper() for x in listed):
+                    out.append(("result", f"kind=case,name={q},stmt={tpl.kind},session={tpl.session}", True,
+                                {"expected": e, "reported": listed, "column": col}))
+                else:
+                    # the template says the object exists (the prelude made it) and the statement succeeded
+                    out.append(("result", f"kind=missing,name={q},stmt={tpl.kind},session={tpl.session}", True,
+                                {"expected": e, "reported": listed, "column": col}))
+    if tpl.ctx and o.get("context"):
+        cat = _model_cached(tpl.id)
+        for what, got, exp in (("database", o["context"][0], cat.cur_db), ("schema", o["context"][1], cat.cur_schema)):
+            if exp in (R.UNKNOWN, None) or got is None:
+                continue  # "no current schema" is not a case matter
+            qn = "quoted" if exp in cat.verbatim else "unquoted"
+            if got == exp or got.upper() == exp.upper():
+                out.append(("conn", f"kind=case,name={qn},attr={what},session={tpl.session}", got != exp,
+                            {"expected": exp, "reported": got}))
     if tpl.status is not None:
         fmt, kind_word, spelled = tpl.status
         exp = fmt.format(kind=kind_word, name=R.fold(spelled))
@@ -530,6 +741,15 @@ def own_result_findings(tpl: T, o):
                 q = "quoted" if R.is_quoted(spelled) else "unquoted"
                 out.append(("status", f"kind=case,name={q},stmt={tpl.kind}", not ok, {"expected": exp, "reported": got}))
     return out
+
+
+_MODELS: dict = {}
+
+
+def _model_cached(tid):
+    if tid not in _MODELS:
+        _MODELS[tid] = model_after(TPL[tid])
+    return _MODELS[tid]
 
 
 def _same_ci(a, b):
@@ -578,18 +798,6 @@ def sweep_reports(conn, tpl: T, succeeded: bool = True):
                 who = "information_schema" if r == "information_schema" else "other"
                 out.append((surface, f"kind=lower,name={who}", True,
                             {"reported": r, "what": what, "note": "a lower-case name that nobody wrote in quotes"}))
-
-    # conn.database / conn.schema
-    if tpl.ctx:
-        for what, got, exp in (("database", conn.database, cat.cur_db), ("schema", conn.schema, cat.cur_schema)):
-            if exp == R.UNKNOWN:
-                continue
-            if exp is None or got is None:
-                continue  # "no current schema" is not a case matter
-            qn = "quoted" if exp in verb else "unquoted"
-            bad = got != exp
-            if not bad or got.upper() == exp.upper():
-                out.append(("conn", f"kind=case,name={qn},attr={what}", bad, {"expected": exp, "reported": got}))
 
     objs = cat.objects()
     for d in cat.databases():
@@ -665,17 +873,35 @@ def sweep_reports(conn, tpl: T, succeeded: bool = True):
 
 
 # ---- work items --------------------------------------------------------------------------------------------------------
-CHUNK = {True: 40, False: 12}  # spellings per work item (shared instance / fresh instance per spelling)
+CHUNK = {True: 40, False: 20}  # spellings per work item (shared instance / fresh instance per spelling)
 CANONICAL = ("all:l", "all:u", "all:c", "all:a")
 
 
+# read-only templates after which the reporting surfaces are swept in the quick tier: one per session flavour (they all
+# leave the flavour's own state behind, so more would repeat the same sweep; thorough sweeps after every template)
+QUICK_SHARED_SWEEPS = {"sel_alias", "cte_fq@nodb", "cte_fq@noschema", "q_select", "qs_select", "qd_select"}
+
+
 def sweep_labels(tpl: T, tier: str):
-    """spellings after which the reporting surfaces are swept: the whole-statement forms (quick: ALL-UPPER and
-    aLtErNaTiNg, thorough: all four) where the statement changes the state; one (ALL-UPPER) where it only reads the
-    prelude's state"""
+    """spellings after which the reporting surfaces are swept. Statements that change the names model: ALL-UPPER
+    (quick), all four whole-statement forms (thorough) — the names they store come from the re-spelled text.
+    Read-only statements: ALL-UPPER; in quick only for QUICK_SHARED_SWEEPS."""
     if tpl.kind in SHARED_KINDS:
-        return ("all:u",)
-    return ("all:u", "all:a") if tier == "quick" else CANONICAL
+        return ("all:u",) if tier != "quick" or tpl.id in QUICK_SHARED_SWEEPS else ()
+    if tier == "quick":
+        # a statement without effect on the names model (DML, SET, COMMENT, transactions) leaves the flavour's names
+        # as they are: quick sweeps those once per flavour (above), thorough after every template
+        return ("all:u",) if tpl.fx else ()
+    return CANONICAL
+
+
+def in_tier(tpl: T, tier: str) -> bool:
+    """quick leaves out the state-changing statements of the no-current-database flavour: the same statements run in
+    the no-current-schema flavour, and fresh instances are what the quick tier's time goes into"""
+    return tier != "quick" or not (tpl.session == "nodb" and tpl.kind in QUICK_NODB_SKIPPED_KINDS)
+
+
+QUICK_NODB_SKIPPED_KINDS = {"INSERT", "UPDATE", "DELETE", "CREATE TABLE", "CREATE VIEW", "CREATE SCHEMA", "DROP"}
 
 
 def plan(tier):
@@ -683,6 +909,8 @@ def plan(tier):
     quote=[(label, form, qs, text)], ref=text)"""
     items, cata = [], {}
     for tpl in TEMPLATES:
+        if not in_tier(tpl, tier):
+            continue
         toks = R.lex(tpl.sql)
         case = [(lab, forms, R.render(toks, forms)) for lab, forms in R.spellings(toks, tier)]
         quote = [(lab, form, qs, R.render(toks, form, qs)) for lab, form, qs in R.quotings(toks, tier)]
@@ -881,7 +1109,8 @@ def run(ctx: core.Ctx):
                 _report(ctx.acc, surface, cls, failed, det, tid, text)
     n_case = n_quote = 0
     tokens = {}
-    for tpl in TEMPLATES:
+    active = [t for t in TEMPLATES if in_tier(t, ctx.tier)]
+    for tpl in active:
         c = cata[tpl.id]
         missing = [t for _l, _f, t in c["case"] if t not in by_tpl[tpl.id]]
         if missing:
@@ -893,13 +1122,14 @@ def run(ctx: core.Ctx):
         ok_or_err = by_tpl[tpl.id][c["ref"]][2][0]
         ctx.acc.add("reference_status", (tpl.id, ok_or_err))
     ctx.exhaustive = True
-    ctx.extra["templates"] = len(TEMPLATES)
-    ctx.extra["template_kinds"] = sorted({t.kind for t in TEMPLATES})
+    ctx.extra["templates"] = len(active)
+    ctx.extra["templates_by_session_flavour"] = {f: sum(1 for t in active if t.session == f) for f in SESSIONS}
+    ctx.extra["template_kinds"] = sorted({t.kind for t in active})
     ctx.extra["case_spellings"] = n_case
     ctx.extra["quoted_spellings"] = n_quote
     ctx.extra["foldable_tokens_and_names_per_template"] = tokens
     ctx.extra["reference_errors"] = sorted(
-        t.id for t in TEMPLATES if by_tpl[t.id][cata[t.id]["ref"]][2][0] == "err"
+        t.id for t in active if by_tpl[t.id][cata[t.id]["ref"]][2][0] == "err"
     )
     ctx.extra["sweep_names_absent"] = {f"{s}:{n}": c for (s, n), c in sorted(absent.items())}
     ctx.extra["bound"] = f"full enumeration of the stated spellings for tier {ctx.tier} (FULL_LIMIT={R.FULL_LIMIT})"
